@@ -54,6 +54,7 @@ type Frame struct {
 	from      *ssa.BasicBlock // predecessor block (for Phi)
 	ct        *Contract
 	site      string // attribution for obligations raised inside inlined callees
+	caller    *Frame // frame of the inlining caller on this path (nil for the top frame and for ghost executions)
 }
 
 func (f *Frame) clone() *Frame {
@@ -107,6 +108,7 @@ type Unit struct {
 	usedCallee map[string]map[string]bool // callee key -> clause labels assumed
 	inlined    map[string]bool
 	modRecv    map[*Object]bool // objects the unit may modify (from modifies)
+	topFrame   *Frame           // frame of the function under verification
 	initMode   bool             // executing package init to collect the values of read-only globals
 	initVals   map[*ssa.Global]Value
 	initObjs   map[*ssa.Global]*Object
@@ -1695,6 +1697,25 @@ func (u *Unit) enter(st *State, fr *Frame, b *ssa.BasicBlock) []Outcome {
 			return u.cutLoop(st, fr, b, lc)
 		}
 	}
+	if !fr.top && !u.bounded && u.specMode == 0 {
+		// a loop of an inlined helper annotated by the unit's contract (extracted loop)
+		if fr.from != nil {
+			if lc := u.loopContract(fr, fr.from); lc != nil && lc.floating && !lc.body[b] && len(lc.Exits) > 0 {
+				for _, cl := range lc.Exits {
+					g, err := u.invEnv(st, fr, fr.from).safeFormula(cl, true)
+					if err != nil {
+						u.specError(fmt.Sprintf("loop %d exit %s", lc.Ord, cl.Label), err)
+						return nil
+					}
+					u.oblige(st, fmt.Sprintf("%s#loop%d.exit:%s", fnKey(u.fn), lc.Ord, cl.Label), "loop-exit", u.invTags(cl), g, cl.Text)
+					st.assume(g)
+				}
+			}
+		}
+		if lc := u.loopContract(fr, b); lc != nil && lc.floating {
+			return u.cutLoop(st, fr, b, lc)
+		}
+	}
 	if fr.symBranch {
 		fr.visits[b]++
 	}
@@ -1720,7 +1741,7 @@ func (u *Unit) newFrame(fn *ssa.Function, args []Value, depth int, st *State) *F
 	return fr
 }
 
-func (u *Unit) callFn(st *State, fn *ssa.Function, args []Value, binds []Value, depth int, site string) []Outcome {
+func (u *Unit) callFn(st *State, fn *ssa.Function, args []Value, binds []Value, depth int, site string, caller ...*Frame) []Outcome {
 	if depth > 16 {
 		u.unsupported("call depth")
 		return nil
@@ -1731,6 +1752,9 @@ func (u *Unit) callFn(st *State, fn *ssa.Function, args []Value, binds []Value, 
 	}
 	fr := u.newFrame(fn, args, depth, st)
 	fr.site = site
+	if len(caller) == 1 {
+		fr.caller = caller[0]
+	}
 	for i, fv := range fn.FreeVars {
 		fr.regs[fv] = binds[i]
 	}
